@@ -789,7 +789,8 @@ class C17(Prop):
             '(all coroutine / all inline / all thread / all process / 2 random mixes) with seeded schedules; every '
             'assignment must terminate with the reference outcome (the reference has no notion of mode). fail-fast: 5 of '
             'the 16 worker interpreters start with a deficient pool registry (no thread pool, no process pool, thread '
-            'pool shut down, process pool shut down, process manager missing; public registry API only); if the '
+            'pool shut down, process pool shut down, process manager missing; public registry API only) and 2 more with '
+            'a pool that serves one healthy run and is then shut down by its owner (executor.shutdown()); if the '
             'program needs the missing pool the run must end with an error result, zero body invocations, within 60 '
             'loop handles; non-trivial = >= 2 mode vectors compared with >= 2 completions pending, or a pool fault fired')
     k_quick = 1
@@ -803,6 +804,9 @@ class C17(Prop):
         for i in (0, 4, 9):
             if i < n and st[i] == 'both':
                 st[i] = 'baton-thread'      # real ThreadPoolExecutor under baton control
+        for i, s in ((1, 'thread-shutdown-late'), (3, 'process-shutdown-late')):
+            if i < n and st[i] == 'both' and n >= 6:
+                st[i] = s                   # healthy for a first run, then shut down by its owner
         return st
 
     def gen(self, rng):
@@ -823,7 +827,18 @@ class C17(Prop):
 
     def evaluate(self, case, stats=None):
         from . import materialize as mat
-        state = mat._REG.get('state', 'both')
+        full_state = state = mat._REG.get('state', 'both')
+        if state.endswith('-late'):
+            if not mat._REG.get('flipped'):
+                # first use of the pool in this interpreter: one healthy run that needs it, then its owner shuts it down
+                warm = dict(case)
+                warm['spec'] = self.variant(case['spec'], 'thread' if state.startswith('thread') else 'process', 0)
+                warm['fixed_modes'] = True
+                warm['registry'] = full_state
+                sched, set_seed = build_sched({'fifo': True}, names_of(case['spec']))
+                run_case(warm, sched, set_seed=set_seed)
+                mat.flip_late()
+            state = state[:-len('-late')]
         if case.get('fixed_modes'):
             variants = [(case.get('vector', '?'), case['spec'])]
         else:
@@ -837,7 +852,7 @@ class C17(Prop):
             c2['spec'] = spec
             c2['fixed_modes'] = True
             c2['vector'] = vec
-            c2['registry'] = state
+            c2['registry'] = full_state
             cd = case_digest(c2)
             for si, sd in enumerate(case['scheds']):
                 sched, set_seed = build_sched(sd, names)
@@ -846,7 +861,7 @@ class C17(Prop):
                 if state not in ('both', 'baton-thread') and rec.steps is not None and rec.steps <= 60 \
                         and rec.outcomes and rec.outcomes[0][0] == 'error' and rec.outcomes[0][1] == 'RuntimeError':
                     rec.fault_hits = dict(rec.fault_hits or {})
-                    rec.fault_hits['pool_fault_' + state] = rec.fault_hits.get('pool_fault_' + state, 0) + 1
+                    rec.fault_hits['pool_fault_' + full_state] = rec.fault_hits.get('pool_fault_' + full_state, 0) + 1
                 if stats is not None:
                     stats.add_run(cd, rec, rec.max_pending >= 2 or state not in ('both', 'baton-thread'),
                                   sd.get('policy', 'fifo'),
